@@ -887,7 +887,7 @@ package machine
 
 // The transition executor.
 //@ func (t *Transition) emitEvents() (res Result)
-//@   props C01 C03 C05 C07 C14
+//@   props C01 C03 C05 C06 C07 C14
 //@   abstracts the onChange callback and tracer callbacks are opaque (assumed not to assign machine state)
 //@   requires tx:    TxInv(t) && TargetOK(t) && t.cacheStatesBefore != nil && t.Machine.t == t && t.Machine.resolver != nil && t.Machine.subs != nil
 //@   requires owner: t.Machine.queueProcessing && QueueInv(t.Machine) && machOf(t.Machine.resolver) == t.Machine && unlocked(t.Machine.queueMx)
@@ -1087,6 +1087,60 @@ package machine
 //@   ensures inv: sm != nil && fresh(sm) && SubsInv(sm) && unlocked(sm.Mx)
 //@   ensures closed: closed(sm.Closed)
 //@   ensures empty: len(sm.whenQueue) == 0 && len(sm.whenQueueEnds) == 0 && len(sm.whenQuery) == 0
+
+// WTInv: the time-subscription index and its bindings agree: a binding is
+// listed only under states of its own Index, and under all of them.
+//@ pred WTInv(sm *Subscriptions) := !isnil(sm.whenTime) && !isnil(sm.whenTimeCtx) && (forall s string :: nodup(sm.whenTime[s]))
+//@    && (forall s string, b *WhenTimeBinding :: mem(sm.whenTime[s], b) ==> b != nil && has(b.Index, s))
+//@    && (forall s string, s2 string, b *WhenTimeBinding :: mem(sm.whenTime[s], b) && has(b.Index, s2) ==> mem(sm.whenTime[s2], b))
+
+// Dropping a finished binding from the index removes that binding everywhere
+// and no other binding anywhere.
+//@ func (sm *Subscriptions) gcWhenTimeBinding(binding *WhenTimeBinding, gcCtx bool)
+//@   props C06
+//@   requires nn:     binding != nil && WTInv(sm)
+//@   requires listed: forall s string :: has(binding.Index, s) ==> mem(sm.whenTime[s], binding)
+//@   assigns  sm.whenTime, sm.whenTimeCtx
+//@   ensures  removed: forall s string :: !mem(sm.whenTime[s], binding)
+//@   ensures  others:  forall s string, b *WhenTimeBinding :: b != binding ==> (mem(sm.whenTime[s], b) <==> old(mem(sm.whenTime[s], b)))
+//@   ensures  inv:     WTInv(sm)
+//@   loop 1 invariant nn:     !isnil(sm.whenTime) && !isnil(sm.whenTimeCtx) && (forall s string :: nodup(sm.whenTime[s]))
+//@   loop 1 invariant others: forall s string, b *WhenTimeBinding :: b != binding ==> (mem(sm.whenTime[s], b) <==> old(mem(sm.whenTime[s], b)))
+//@   loop 1 invariant done:   forall s string :: visited1[s] ==> !mem(sm.whenTime[s], binding)
+//@   loop 1 invariant rest:   forall s string :: !visited1[s] ==> (mem(sm.whenTime[s], binding) <==> old(mem(sm.whenTime[s], binding)))
+
+//@ func (t Time) Equal(strict bool, time2 Time) (r bool)
+//@   props C20
+//@   requires len: strict || len(time2) >= len(t)
+//@   ensures  def: r <==> (!(strict && len(t) != len(time2)) && (forall i int :: 0 <= i && i < len(t) ==> t[i] == time2[i]))
+//@   loop 1 invariant eq: forall j int :: 0 <= j && j < idx1 ==> t[j] == time2[j]
+
+//@ func statesToMapIndex(states S) (index map[string]int)
+//@   props C06
+//@   ensures fresh: fresh(index) && !isnil(index)
+//@   ensures keys:  forall x string :: has(index, x) <==> mem(states, x)
+//@   loop 1 invariant keys: fresh(index) && !isnil(index) && (forall x string :: has(index, x) <==> (exists j int :: 0 <= j && j < idx1 && states[j] == x))
+
+// Subscribing by time: the always-closed channel is returned exactly when every
+// requested tick has already passed (or the context has ended); otherwise the
+// binding - a reused equal one or a new one - is listed under every state it
+// waits for, and no other binding is touched.
+//@ func (sm *Subscriptions) WhenTime(states S, times Time, ctx context.Context) (ch <-chan struct{})
+//@   props C06
+//@   abstracts ctx.Err() is an opaque interface call; maps.Equal is modelled as map equality
+//@   requires inv:   WTInv(sm) && unlocked(sm.Mx)
+//@   requires args:  len(states) > 0 && len(times) == len(states) && nodup(states)
+//@   assigns  sm.whenTime, sm.whenTimeCtx, sm.Mx
+//@   ensures  inv:    WTInv(sm)
+//@   ensures  kept:   forall s string, b *WhenTimeBinding :: old(mem(sm.whenTime[s], b)) ==> mem(sm.whenTime[s], b)
+//@   ensures  registered: ch != sm.Closed ==> (exists b *WhenTimeBinding :: b != nil && b.Ch == ch && (forall i int :: 0 <= i && i < len(states) ==> mem(sm.whenTime[states[i]], b)))
+//@   ensures  open_new: ch != sm.Closed && (forall s string, b *WhenTimeBinding :: old(mem(sm.whenTime[s], b)) ==> b.Ch != ch) ==> !closed(ch) && !(forall i int :: 0 <= i && i < len(states) ==> sm.clock[states[i]] >= times[i])
+//@   ensures  locks:  unlocked(sm.Mx)
+//@   loop 2 invariant passed: passed <==> (forall j int :: 0 <= j && j < idx2 ==> sm.clock[states[j]] >= times[j])
+//@   loop 3 invariant index:  !isnil(index) && fresh(index) && !isnil(completed) && (forall x string :: has(index, x) <==> (exists j int :: 0 <= j && j < i && states[j] == x))
+//@   loop 4 invariant nn:     !isnil(sm.whenTime) && !isnil(sm.whenTimeCtx) && (forall s string :: nodup(sm.whenTime[s]))
+//@   loop 4 invariant kept:   forall s string, b *WhenTimeBinding :: b != binding ==> (mem(sm.whenTime[s], b) <==> old(mem(sm.whenTime[s], b)))
+//@   loop 4 invariant added:  forall s string :: mem(sm.whenTime[s], binding) <==> (exists j int :: 0 <= j && j < idx4 && states[j] == s)
 
 //@ func (sm *Subscriptions) WhenQuery(fn func(clock Clock) bool, ctx context.Context) (ch <-chan struct{})
 //@   props C06 C20
